@@ -40,6 +40,7 @@ type gen struct {
 	invalid map[common.Hash]string
 	idx     int // world number (drives the systematic part of the invalid-block choice)
 	bare    bool // every node of this world runs the bare core processor (no staking module registered)
+	atTime  uint64 // when set: timestamp of the next blocks built (future-block workload)
 	all     map[common.Hash]*types.Block
 }
 
@@ -110,7 +111,11 @@ func (g *gen) extend(n *node, ntx int, tamper func(h *types.Header), why string,
 		txs = append(txs, tx)
 	}
 	parent := n.Chain.CurrentBlock()
-	res, err := n.b.Build(parent.Time()+1+uint64(g.r.Intn(3)), build.NewOrderedTxs(g.signer, txs))
+	ts := parent.Time() + 1 + uint64(g.r.Intn(3))
+	if g.atTime > ts {
+		ts = g.atTime
+	}
+	res, err := n.b.Build(ts, build.NewOrderedTxs(g.signer, txs))
 	if err != nil {
 		return nil, err
 	}
